@@ -89,9 +89,9 @@ def eval_macro(text, macros, depth=0):
             return "(%s)" % eval_macro(macros[n], macros, depth + 1)
         raise AnalysisError("macro %s not numeric" % n)
     t = re.sub(r"\b[A-Za-z_]\w*\b", repl, t)
-    if not re.match(r"^[\s0-9a-fA-FxX()|&~<>+\-*]+$", t):
+    if not re.match(r"^[\s0-9a-fA-FxX()|&~<>+\-*/%]+$", t):
         raise AnalysisError("macro body not numeric: %s" % text)
-    return eval(t, {"__builtins__": {}}, {})
+    return eval(t.replace("/", "//"), {"__builtins__": {}}, {})
 
 
 def load(repo, rel):
@@ -195,6 +195,10 @@ def const_int(n):
             return None
         op = n.get("opcode")
         try:
+            if op in ("/", "%"):
+                if b == 0 or a < 0 or b < 0:
+                    return None
+                return a // b if op == "/" else a % b
             return {"|": a | b, "&": a & b, "^": a ^ b, "<<": a << b, ">>": a >> b, "+": a + b, "-": a - b,
                     "*": a * b}.get(op)
         except Exception:
@@ -577,3 +581,35 @@ def c_less_than(test, polarity, defs=None):
     if op == "<=":
         r = (r[0], r[1] + 1)
     return l, r
+
+
+def inline_bool_helper(tu, call):
+    """For a call of a function of the same translation unit whose body is [local declarations with initialisers] + `return <expr>;`:
+    (the returned expression, definitions) where the definitions map the helper's parameters to the call's arguments and its locals to
+    their initialisers - to be handed to c_linear / c_less_than.  None when the callee has another shape."""
+    name = callee(call)
+    f = tu.funcs.get(name) if name else None
+    if f is None:
+        return None
+    args = call_args(call)
+    params = [p.get("name") for p in f.params]
+    if len(params) != len(args):
+        return None
+    body = f.body.get("inner", []) if f.body else []
+    defs = dict(zip(params, args))
+    ret = None
+    for st in body:
+        k = st.get("kind")
+        if k == "DeclStmt":
+            for d in st.get("inner", []):
+                if d.get("kind") == "VarDecl" and d.get("inner"):
+                    defs[d.get("name")] = d["inner"][-1]
+        elif k == "ReturnStmt" and st.get("inner"):
+            ret = st["inner"][0]
+        elif k in ("NullStmt",):
+            continue
+        else:
+            return None
+    if ret is None:
+        return None
+    return ret, defs
